@@ -229,6 +229,53 @@ fn run(c: &SlotSeq, obs: &mut Obs) -> Result<(), String> {
     Ok(())
 }
 
+/// many distinct ordinary names in one thread, each mentioned again later (directly, through the term parser, or printed and
+/// parsed back): the interner's behaviour beyond any small-table threshold
+fn many_names_strategy(max_names: usize) -> BoxedStrategy<SlotSeq> {
+    (10usize..max_names, any::<u8>(), proptest::collection::vec(any::<u16>(), 20..260))
+        .prop_map(|(n, style, picks)| {
+            let name = |i: usize| -> String {
+                match style % 4 {
+                    0 => format!("v{}", i),
+                    1 => {
+                        // base-26 words
+                        let mut k = i;
+                        let mut w = String::new();
+                        loop {
+                            w.push((b'a' + (k % 26) as u8) as char);
+                            k /= 26;
+                            if k == 0 {
+                                break;
+                            }
+                        }
+                        w
+                    }
+                    2 => format!("x_{}_{}", i % 7, i),
+                    _ => format!("{}n", i),
+                }
+            };
+            let mut ops = Vec::new();
+            let mut introduced = 0usize;
+            for c in picks {
+                if introduced < n && (c % 5 < 2 || introduced == 0) {
+                    ops.push(if c % 2 == 0 { SlotOp::Named(name(introduced)) } else { SlotOp::Parse(name(introduced)) });
+                    introduced += 1;
+                } else {
+                    let i = ((c as usize / 8) * introduced) >> 13;
+                    let i = i.min(introduced - 1);
+                    ops.push(match c % 8 {
+                        0 => SlotOp::Fresh,
+                        1 | 2 => SlotOp::RoundTrip((c / 8) << 3),
+                        3 | 4 => SlotOp::Parse(name(i)),
+                        _ => SlotOp::Named(name(i)),
+                    });
+                }
+            }
+            SlotSeq { ops }
+        })
+        .boxed()
+}
+
 /// "Consequently slots invented internally never capture a user slot": the matcher's validity oracle of C05, with the
 /// pattern's slots spelled with the names the library invented for class parameters (the user is free to write `$f7`).
 /// Metamorphic: the same case with ordinary pattern slot names must pass first (otherwise the failure is C05's, not C17's).
@@ -257,6 +304,29 @@ pub fn property(tier: Tier) -> Property {
         case_timeout_s: 60,
         exhaustive: false,
     })];
+    let max_names = tier.pick(120, 600);
+    stages.push(Box::new(Stage {
+        name: "many-names",
+        source: random(move || many_names_strategy(max_names), tier.pick(6_000, 100_000)),
+        run: |c: &SlotSeq, obs: &mut Obs| {
+            run(c, obs)?;
+            let distinct: std::collections::BTreeSet<&String> = c.ops.iter().filter_map(|o| match o { SlotOp::Named(n) | SlotOp::Parse(n) => Some(n), _ => None }).collect();
+            let mentions = c.ops.iter().filter(|o| matches!(o, SlotOp::Named(_) | SlotOp::Parse(_))).count();
+            if distinct.len() > 16 {
+                obs.label("more-than-16-names");
+            }
+            if distinct.len() > 64 {
+                obs.label("more-than-64-names");
+            }
+            obs.nontrivial = distinct.len() > 16 && mentions > distinct.len();
+            Ok(())
+        },
+        panic_is_violation: true,
+        render: |c: &SlotSeq| format!("{:?}", c.ops),
+        rule: "10 to 120 (thorough: 600) distinct ordinary names introduced one after another in one thread (directly or through the term parser), interleaved with repeated mentions of earlier names, print+parse round trips and fresh slots; same model as slot-seq (a name always denotes the same slot, distinct names distinct slots, fresh slots new); non-trivial = more than 16 distinct names and at least one repeated mention; distinct by sequence",
+        case_timeout_s: 60,
+        exhaustive: false,
+    }));
     for (name, lang, q, t) in [("no-capture-matching-core", crate::langs::LangId::Core, 3000u32, 60_000u32), ("no-capture-matching-lambda", crate::langs::LangId::Lambda, 1500, 30_000)] {
         stages.push(Box::new(Stage {
             name,
